@@ -63,6 +63,10 @@ inductive PayloadKind where
   | otherJson    -- a JSON dict of another kind        → dropped (payload = None)
   | text         -- not JSON                           → a string (no `.details`)
   | empty
+  | otherValue   -- a JSON body that is a truthy list / number / bool: `APIError.__init__` calls
+                 -- `payload.get('message')` on it → AttributeError out of `check_response` (finding F6)
+  | badDetails   -- a `Status` dict whose `details` is a truthy non-dict (string, list): the handler's
+                 -- `e.details.get("retryAfterSeconds")` raises AttributeError (finding F6)
   deriving DecidableEq, Repr, Inhabited
 
 /-- The `Retry-After` header as `api._parse_retry_after` sees it. Values are in ticks. -/
@@ -84,6 +88,9 @@ structure Resp where
   hdr : Hdr
   payload : PayloadKind
   detRA : Option Int          -- `details.retryAfterSeconds` in the JSON body, if present (ticks)
+  detBad : Bool               -- `details.retryAfterSeconds` is present and truthy but `math.ceil(float(.))`
+                              -- raises on it ("soon", NaN, Infinity, [5]): ValueError / OverflowError /
+                              -- TypeError inside the retry handler, not caught (finding F6)
   deriving DecidableEq, Repr, Inhabited
 
 /-- What the fake session does on one attempt. -/
@@ -157,10 +164,20 @@ inductive Verdict where
   | retry (c : ErrClass) (ra : Option Int) -- caught by the retry clause; `ra` only for 429
   deriving DecidableEq, Repr
 
+/-- Does handling this error response raise a FOREIGN exception (finding F6)? Either while the
+    error object is built in `check_response` (any status ≥ 400, body a truthy non-dict JSON value), or
+    in the 429 handler when the header is absent/empty so that the body's details are consulted. -/
+def bodyRaises (r : Resp) : Bool :=
+  raises r.status &&
+  (r.payload = .otherValue ||
+   (r.status = 429 && r.hdr = .absent &&
+     (r.payload = .badDetails || (r.payload = .statusJson && r.detBad))))
+
 def verdict : Fault → Verdict
   | .ok => .success
   | .http r =>
     if raises r.status then
+      if bodyRaises r then .raise .other else
       let c := classify r.status
       if retryable c then .retry c (if c = .tooMany then retryAfter r else none)
       else .raise c
@@ -218,5 +235,14 @@ def run (bo : Backoffs) (enforce : Bool) : List Att → Nat → Int → Run
 
 def request (bo : Backoffs) (enforce : Bool) (script : List Att) (t0 : Int) : Run :=
   run bo enforce script 0 t0
+
+/-- `api.get / post / patch / delete`: `response = await request(...)` and then
+    `async with response: return await response.json()` — the body is read OUTSIDE the retry loop.
+    `bodyReadFails`: reading the body of the final, successful answer raises a network error. -/
+def getJson (bo : Backoffs) (enforce : Bool) (script : List Att) (t0 : Int) (bodyReadFails : Bool) : Run :=
+  let r := request bo enforce script t0
+  match r.outcome with
+  | .ok => if bodyReadFails then { r with outcome := .escalated .conn } else r
+  | _ => r
 
 end Kopf.C12
